@@ -846,6 +846,11 @@ def main():
     except ImportError:
         pass
     try:
+        import rs2lean_frontend
+        gens += rs2lean_frontend.generators(args.repo)
+    except ImportError:
+        pass
+    try:
         import rs2lean_dispatch
         gens += rs2lean_dispatch.generators(args.repo)
     except ImportError:
